@@ -42,12 +42,13 @@ type State struct {
 	ncell   int
 	clos    map[string]ClosureV // function values known by term key
 	ghostV  map[string]Value    // ghost locals (range rule etc.)
+	known   map[string]int64    // integer terms known to equal a literal on this path (dynamic type tags)
 	dead    bool
 }
 
 func newState() *State {
 	top := Const("heaptop", IntS)
-	st := &State{pcKeys: map[string]bool{}, cells: map[*Cell]Value{}, heap: map[string]*Term{}, clos: map[string]ClosureV{}, ghostV: map[string]Value{}}
+	st := &State{pcKeys: map[string]bool{}, cells: map[*Cell]Value{}, heap: map[string]*Term{}, clos: map[string]ClosureV{}, ghostV: map[string]Value{}, known: map[string]int64{}}
 	st.heaptop, st.top0, st.topBase = top, top, top
 	st.assume(Le(IntLit(1), top))
 	return st
@@ -72,6 +73,10 @@ func (st *State) clone() *State {
 	for k, v := range st.clos {
 		n.clos[k] = v
 	}
+	n.known = make(map[string]int64, len(st.known))
+	for k, v := range st.known {
+		n.known[k] = v
+	}
 	n.ghostV = make(map[string]Value, len(st.ghostV))
 	for k, v := range st.ghostV {
 		n.ghostV[k] = v
@@ -91,6 +96,15 @@ func (st *State) assume(t *Term) {
 	}
 	if t.IsFalse() {
 		st.dead = true
+	}
+	if t.Op == "=" && len(t.Args) == 2 && t.Args[0].Sort.Kind == SInt {
+		a, b := t.Args[0], t.Args[1]
+		if a.IsInt() {
+			a, b = b, a
+		}
+		if b.IsInt() && !a.IsInt() && b.Int.IsInt64() {
+			st.known[a.Key()] = b.Int.Int64()
+		}
 	}
 	k := t.Key()
 	if st.pcKeys[k] {
